@@ -24,6 +24,26 @@ EXPLANATION = (
 )
 
 
+def token_factory_rules(ck, C):
+    f = ck.facts
+    # ---- clause 7: sub-token allocation ------------------------------------------------------------------------
+    tf = ck.opt_body("TokenFactory::token")
+    if tf is None:
+        ck.anchor_missing(C, "T6-provenance", "TokenFactory::token")
+    else:
+        inc = T.calls(tf, name="increment_sub_id")
+        st_next = [(i, st) for i, j, st in T.stores_to_field(tf, "next_token")]
+        ret = [(i, st) for i, j, st in tf.statements() if st["s"] == "assign" and st["pl"]["l"] == 0 and not tf.is_cleanup(i)]
+        ok_ret = any(st["rv"]["r"] == "agg" and T.path_has(tf, st["rv"]["fields"][0], ".next_token") and not T.resolves_to_call(tf, st["rv"]["fields"][0], [c.bb for c in inc]) for i, st in ret)
+        ok_store = bool(inc) and any(T.resolves_to_call(tf, st["rv"]["o"], [c.bb for c in inc]) for i, st in st_next if st["rv"]["r"] == "use") and all(T.path_has(tf, c.args[0], ".next_token") for c in inc)
+        bad = T.t2_all_exits(tf, [0], [i for i, st in st_next]) if st_next else [0]
+        ck.verdict(ok_ret and ok_store and bad is None, C, "T6-provenance", tf, "returns-current/stores-successor", "token() returns the current sub-token and stores increment_sub_id() of it on every path", "TokenFactory::token does not return the current token and advance to its successor (two sub-sources would share a token)", site=tf.where())
+    tfn = ck.opt_body("TokenFactory::new")
+    if tfn is not None:
+        fs = T.calls(tfn, name="forget_sub_id")
+        ck.verdict(bool(fs) and all(T.resolves_to_arg(tfn, c.args[0], 1) for c in fs), C, "T6-provenance", tfn, "starts-at-sub-id-0-of-given-token", "a factory starts at sub-id 0 of the slot's token", "TokenFactory::new does not start from the given token with the sub-id cleared", site=tfn.where())
+
+
 def run(ck):
     f = ck.facts
     # ---- clause 1: generation-checked lookup -----------------------------------------------------
@@ -250,19 +270,4 @@ def run(ck):
             ck.verdict(T.resolves_to_arg(b2, c.args[1], 2) and T.resolves_to_arg(b2, c.args[2], 3), "6", "T6-provenance", b2, "forwards-own-readiness-and-token", "the inner source receives the wrapper's own readiness and token", "the wrapper hands its inner source a different readiness/token: %s / %s" % (b2.roots_str(c.args[1]), b2.roots_str(c.args[2])), site=b2.where(c.bb))
     ck.floor("6", "wrapper process_events forwarding sites", n, 8 if ck.has("executor") and ck.has("stream") and ck.has("signals") else 5)
 
-    # ---- clause 7: sub-token allocation ------------------------------------------------------------------------
-    tf = ck.opt_body("TokenFactory::token")
-    if tf is None:
-        ck.anchor_missing("7", "T6-provenance", "TokenFactory::token")
-    else:
-        inc = T.calls(tf, name="increment_sub_id")
-        st_next = [(i, st) for i, j, st in T.stores_to_field(tf, "next_token")]
-        ret = [(i, st) for i, j, st in tf.statements() if st["s"] == "assign" and st["pl"]["l"] == 0 and not tf.is_cleanup(i)]
-        ok_ret = any(st["rv"]["r"] == "agg" and T.path_has(tf, st["rv"]["fields"][0], ".next_token") and not T.resolves_to_call(tf, st["rv"]["fields"][0], [c.bb for c in inc]) for i, st in ret)
-        ok_store = bool(inc) and any(T.resolves_to_call(tf, st["rv"]["o"], [c.bb for c in inc]) for i, st in st_next if st["rv"]["r"] == "use") and all(T.path_has(tf, c.args[0], ".next_token") for c in inc)
-        bad = T.t2_all_exits(tf, [0], [i for i, st in st_next]) if st_next else [0]
-        ck.verdict(ok_ret and ok_store and bad is None, "7", "T6-provenance", tf, "returns-current/stores-successor", "token() returns the current sub-token and stores increment_sub_id() of it on every path", "TokenFactory::token does not return the current token and advance to its successor (two sub-sources would share a token)", site=tf.where())
-    tfn = ck.opt_body("TokenFactory::new")
-    if tfn is not None:
-        fs = T.calls(tfn, name="forget_sub_id")
-        ck.verdict(bool(fs) and all(T.resolves_to_arg(tfn, c.args[0], 1) for c in fs), "7", "T6-provenance", tfn, "starts-at-sub-id-0-of-given-token", "a factory starts at sub-id 0 of the slot's token", "TokenFactory::new does not start from the given token with the sub-id cleared", site=tfn.where())
+    token_factory_rules(ck, "7")
